@@ -91,6 +91,30 @@ def addVec (a b : List Int) : List Int := List.zipWith (· + ·) a b
 def sumSets (sets : List (List (List Int))) (zero : List Int) : List (List Int) :=
   sets.foldl (fun acc s => (acc.flatMap (fun a => s.map (addVec a))).eraseDups) [zero]
 
+def minVec (a b : List Int) : List Int := List.zipWith (fun x y => if x ≤ y then x else y) a b
+def maxVec (a b : List Int) : List Int := List.zipWith (fun x y => if x ≤ y then y else x) a b
+
+/-- Is `target` a sum of one vector from each set? Exact when few requests are ambiguous (the unambiguous ones are
+    added up first); otherwise — many concurrent requests each of which may or may not have met an endpoint that
+    was going offline / whose breaker was tripping — the component-wise bounds. Returns (explained, a few witnesses). -/
+def explains (sets : List (List (List Int))) (zero target : List Int) : Bool × List (List Int) :=
+  let fixed := (sets.filter (fun s => s.length == 1)).foldl (fun acc s => addVec acc (s.headD zero)) zero
+  let open' := sets.filter (fun s => s.length != 1)
+  -- exact sum set, with duplicates removed after every request, as long as it stays small; vectors that already
+  -- exceed the target in some component cannot lead to it (all contributions are >= 0) and are dropped
+  let within := fun (v : List Int) => (v.zip target).all (fun (a, t) => a ≤ t)
+  let exact : Option (List (List Int)) := open'.foldl (fun acc s => match acc with
+      | none => none
+      | some cur =>
+        let nxt := ((cur.flatMap (fun a => s.map (addVec a))).filter within).eraseDups
+        if nxt.length > 1500 then none else some nxt) (some [fixed])
+  if let some sums := exact then
+    (sums.contains target, sums.take 4)
+  else
+    let lo := open'.foldl (fun acc s => addVec acc (s.foldl minVec (s.headD zero))) fixed
+    let hi := open'.foldl (fun acc s => addVec acc (s.foldl maxVec (s.headD zero))) fixed
+    (((lo.zip target).all (fun (l, t) => l ≤ t)) && ((target.zip hi).all (fun (t, h) => t ≤ h)), [lo, hi])
+
 /-- Prefix of a run up to and including the first request that reaches a (gated) backend. -/
 def heldPrefix (eps : List EpSpec) : List Ev → List Ev
   | [] => []
@@ -178,15 +202,15 @@ def handle (vs : Variants) (j : Json) : IO Unit := do
   let runs := (possibleRuns vs eps balancer racy (jstr (jget sc "engine") == "olla" && clients > 1)).eraseDups
   let perReq : List (List (List Ev × Result)) := reqs.map (fun r => runs.filter (fun run => seenList eps run.1 == contactedOf r))
   let zero : List Int := (List.replicate (7 + 2 * eps.length) 0)
-  let sums := sumSets (perReq.map (fun rs => (rs.map (contribution vs eps route)).eraseDups)) zero
   let implVec : List Int := [gO, gF, eT, eO, eF, tO, tF] ++ perEp.flatMap (fun (_, o, f) => [o, f])
+  let (summed, sums) := explains (perReq.map (fun rs => (rs.map (contribution vs eps route)).eraseDups)) zero implVec
   let explained := perReq.all (fun rs => !rs.isEmpty)
   let chosen : List (List Ev) := perReq.map (fun rs => (rs.head?.map (·.1)).getD [])
   let shared := chosen.flatten   -- sequential execution is one interleaving; by `C19_gauge_zero_at_quiescence` all give the same
   let mGaugesFinal := eps.map (fun e => gauge e.idx shared 0)
   let mMid := eps.map (fun e => gauge e.idx (chosen.flatMap (heldPrefix eps)) 0)
   let iMid := if jisNull mid then mMid else eps.map (fun e => jint (jget (jget (jget mid "c") "conns") e.name))
-  let agree := explained && sums.contains implVec && mGaugesFinal == gaugesFinal && mMid == iMid
+  let agree := explained && summed && mGaugesFinal == gaugesFinal && mMid == iMid
   let kinds := String.intercalate "," (eps.map (fun e => if e.opened then "open" else e.kind ++ (if e.resp.status ≥ 400 then toString e.resp.status else "")))
   let multi := chosen.any (fun t => attempts t > 1)
   let branch := s!"{family}.{route}.{balancer}" ++ (if multi then ".failover" else "") ++ (if clients > 1 then ".concurrent" else "")
